@@ -28,7 +28,13 @@ MIN_NONTRIVIAL = {'quick': 80, 'thorough': 800}
 REDUCERS = ['mean', 'sum', 'min', 'max', 'var']
 CALLABLES = ['diff', 'sub2', 'cumsum', 'rev', 'conv2']
 PYFN = {'diff': np.diff, 'sub2': (lambda x: x[::2]), 'cumsum': np.cumsum, 'rev': (lambda x: x[::-1]),
-        'conv2': (lambda x: np.convolve(x, [1, 1], mode='valid'))}
+        'conv2': (lambda x: np.convolve(x, [1, 1], mode='valid')),
+        # what dict(func1d=_thin, step=2) selects (the dictionary form with a keyword that has a default)
+        'thin2dict': (lambda x: x[::2])}
+
+
+def _thin(a, step=1):
+    return a[::step]
 
 
 def _case(rng):
@@ -76,6 +82,20 @@ def _legacy_reduce_case(rng):
         for v in spec['vars']:
             if v['name'] not in dimnames and v['dims'] and pool and rng.random() < 0.6:
                 v['name'] = pool.pop(rng.randrange(len(pool)))
+    if rng.random() < 0.4 or fn in ('median', 'ptp'):
+        # a fibre along the reduced dimension that is missing throughout (a site that never reports)
+        dl = {d[0]: d[1] for d in spec['dims']}
+        cand = [v for v in spec['vars'] if n in v['dims'] and v['name'] not in dl]
+        if cand and not any(v['masked'] for v in cand):
+            cand[0]['masked'] = True
+            cand[0]['attrs'] = list(cand[0]['attrs']) + ['fill_value']
+        for v in spec['vars']:
+            if v['masked'] and n in v['dims'] and rng.random() < 0.8:
+                shape = [dl[k] for k in v['dims']]
+                idx = np.arange(int(np.prod(shape))).reshape(shape)
+                sel = [slice(None) if k == n else rng.randrange(dl[k]) for k in v['dims']]
+                for i in np.atleast_1d(idx[tuple(sel)]).ravel().tolist():
+                    v['data'][i] = None
     return dict(kind='reduce', spec=spec, fns=[[n, fn]], text='%s,%s' % (n, fn))
 
 
@@ -168,6 +188,9 @@ def _direct_case(rng):
         if d == 'TSTEP' and rng.random() < 0.6:
             fn = rng.choice(['rev', 'cumsum'])      # functions that keep the number of steps
             src['nt'] = max(src['nt'], 2)
+        if d == 'LAY' and rng.random() < 0.4:
+            fn = 'thin2dict'                        # the dictionary form along LAY: the level edges follow the same keywords
+            src['nl'] = max(src['nl'], 3)
         return dict(kind='direct', sub=k, fns=[], src=src, dim=d, fn=fn)
     spec = pfile.gen_file(rng, maxlen=4, minlen=1 if rng.random() < 0.3 else 2, masked_prob=0.6 if k == 'disk' else 0.3)
     for v in spec['vars']:
@@ -212,7 +235,13 @@ def _impl_direct(case):
                 if case['dim'] not in f.dimensions:
                     return dict(skip=True)
                 before = _snap(f)
-                g = f.applyAlongDimensions(**{case['dim']: (c10.FNS.get(case['fn']) or PYFN.get(case['fn']) or case['fn'])})
+                vg0 = np.asarray(getattr(f, 'VGLVLS', [])).astype('d').tolist()
+                if case['fn'] == 'thin2dict':
+                    g = f.applyAlongDimensions(**{case['dim']: dict(func1d=_thin, step=2)})
+                else:
+                    g = f.applyAlongDimensions(**{case['dim']: (c10.FNS.get(case['fn']) or PYFN.get(case['fn']) or case['fn'])})
+                return dict(before=before, after=_snap(g), dimlen={k: len(v) for k, v in g.dimensions.items()}, vg0=vg0,
+                            vg1=np.asarray(getattr(g, 'VGLVLS', [])).astype('d').tolist(), nlays=int(getattr(g, 'NLAYS', -1)))
             elif case['sub'] == 'callable':
                 f = pfile.build(case['spec'])
                 before = _snap(f)
@@ -281,6 +310,11 @@ def _oracle_direct(case, res):
         return '%s %s=%s raised %s %s' % (case['sub'], case['dim'], case['fn'], res['err'], res.get('msg'))
     dim, fn = case['dim'], case['fn']
     from . import c10
+    if case['sub'] == 'ioapi' and dim == 'LAY' and fn == 'thin2dict' and res.get('vg0'):
+        want = res['vg0'][:-1][::2] + res['vg0'][-1:]
+        if len(res['vg1']) != res['nlays'] + 1 or any(abs(a - b) > 1e-6 for a, b in zip(res['vg1'], want)):
+            return 'ioapi LAY=dict(func1d=thin, step=2): NLAYS=%d, VGLVLS %s, the lower edges of the kept layers and the top are %s' % (
+                res['nlays'], res['vg1'], want)
     if case['sub'] == 'ioapi' and dim == 'TSTEP' and 'TFLAG' in res['before'] and 'TFLAG' in res['after'] and \
             res['after']['TFLAG']['shape'][0] == res['before']['TFLAG']['shape'][0]:
         # a function that keeps the number of steps: the time flags are still the sequence SDATE/STIME/TSTEP define
@@ -327,6 +361,20 @@ def gen(rng, tier):
     return out
 
 
+def _unmasked_nans(o):
+    """cells that hold NaN without being masked (the observation prints NaN like a missing cell: the inputs have none, so
+    a result has none either - a fibre without data gives a MISSING result)"""
+    out = {}
+    for k, v in o.variables.items():
+        a = v[...]
+        d = np.ma.getdata(a)
+        if d.dtype.kind == 'f':
+            n = int((np.isnan(d) & ~np.ma.getmaskarray(a)).sum())
+            if n:
+                out[k] = n
+    return out
+
+
 def impl(case):
     if case.get('kind') == 'direct':
         return _impl_direct(case)
@@ -339,7 +387,7 @@ def impl(case):
         try:
             with lib.pnc_warnings(), np.errstate(all='ignore'):
                 o = (reduce_dim if case['kind'] == 'reduce' else convolve_dim)(f, case['text'])
-            return dict(obs=pfile.observe(o))
+            return dict(obs=pfile.observe(o), nans=_unmasked_nans(o))
         except Exception as e:
             return dict(err=type(e).__name__, msg=str(e)[:100])
     f = pfile.build(case['spec'])
@@ -347,7 +395,7 @@ def impl(case):
     try:
         with lib.pnc_warnings():
             o = f.applyAlongDimensions(**kw)
-        return dict(obs=pfile.observe(o))
+        return dict(obs=pfile.observe(o), nans=_unmasked_nans(o))
     except Exception as e:
         return dict(err=type(e).__name__, msg=str(e)[:100])
 
@@ -403,6 +451,8 @@ def agree(case, out, res):
 
 def oracle(case, res):
     """numpy / numpy.ma applied directly along the corresponding axes of the input arrays"""
+    if res.get('nans'):
+        return 'unmasked NaN in the result (%s) although every input value is finite: a fibre without data gives a missing cell' % res['nans']
     if case.get('kind') == 'direct':
         return _oracle_direct(case, res)
     if case.get('kind') == 'ioapi':
